@@ -138,6 +138,11 @@ func (t *template) layout(ctx context.Context, w io.Writer) error {
 		buf := new(bytes.Buffer)
 		tplInterface := t.Load(filename).Fill(data)
 		tpl := tplInterface.(*template)
+		if tpl.err != nil {
+			// (the file could not be read just now: without its front-matter the chain would
+			// end here, silently, if a second read - the render's own - happened to succeed)
+			return tpl.err
+		}
 
 		// Extract slot definitions from the template DOM before rendering (only for first template)
 		if isFirstTemplate {
